@@ -320,11 +320,35 @@ def _c02_resolver(ctx, fi):
     return None
 
 
+# ------------------------------------------------------------------ C02.7
+def c02_7(ctx):
+    """coordinates are field elements: outside [0, p) nothing is a point (a representative x + p of a point's x is not
+    the unique encoding of anything, and its text form does not parse back)"""
+    from sa.gi import iv
+    U, E = gi.IntSet.all(), gi.IntSet.empty()
+    f = ctx.func(CURVE, "Curve.contains_point")
+    for coord in f.params()[1:3]:
+        w = sym.int_walk(ctx, f, {coord}, {"self._p"}, truthy=False)
+        tf = sym.truth_formula(w)
+        absent = {o: False for o in (gi.f_opaques(tf) if tf not in (True, False) else []) if isinstance(o, str) and o.endswith(" is None")}      # (None, None) is infinity
+        s_ = sym.may_set(tf, U, E, assume=absent) if tf is not False else E
+        ctx.check(s_.issubset(iv(0, ("s", -1))), "contains-point-range:%s" % coord, ctx.where(f),
+                  "Curve.contains_point can answer True for %s in %s; a coordinate is a field element, 0 <= %s < p" % (coord, s_.fmt("p"), coord), sample={"coordinate": coord, "may_be_true_for": s_.fmt("p")})
+    g = ctx.func(GEN, "Generator.points_for_x")
+    x = g.params()[1]
+    w = sym.int_walk(ctx, g, {x}, {"self._p"}, truthy=False)
+    fr = sym.exits_formula(w, lambda e: e.kind == "raise")
+    s_ = sym.must_set(fr, U, E) if fr is not False else E
+    ctx.check(iv(0, ("s", -1)).complement().issubset(s_), "points-for-x-range", ctx.where(g),
+              "Generator.points_for_x refuses x in %s on its own; every x outside [0, p) has to be refused (x + p is the same residue, not the same encoding)" % s_.fmt("p"), sample={"refused": s_.fmt("p")})
+
+
 OBLIGATIONS = [
     Ob("C02.1", "every returned point is built through the on-curve-checking constructor (or is a parameter / infinity)", c02_1, floor=20, engines="SYM,CG"),
     Ob("C02.2", "Curve.add decides P = Q / P = -Q modulo p; slopes; identity cases", c02_2, floor=5, engines="SYM", breaks_if="points with unreduced coordinates (x, -y), (x, 2p - y)"),
     Ob("C02.3", "all multiply implementations reduce the scalar unconditionally before the zero / infinity test", c02_3, floor=8, engines="SIB,SYM", breaks_if="scalars n, -n, 2n; blinded scalars >= 2^256"),
     Ob("C02.4", "blinding offsets cancel (linear form of the fixed-base scalars)", _guarded(c02_4, _c02_resolver), floor=4, engines="LIN,SYM"),
     Ob("C02.5", "square root exponent (p+1)/4; points_for_x returns the even root first", c02_5, floor=4, engines="SYM"),
+    Ob("C02.7", "coordinates outside [0, p) are not points: contains_point / points_for_x as interval sets", c02_7, floor=3, engines="SYM,GI", breaks_if="x + p, negative x"),
     Ob("C02.6", "infinity is tested before any coordinate arithmetic (negation, subtraction, addition)", c02_6, floor=5, engines="SYM", breaks_if="-infinity, P - infinity"),
 ]
